@@ -139,10 +139,63 @@ def parseToks (zOk : Bool) : List Tok → Fields → Bytes → Option Fields
 
 def zeroFields : Fields := { year := 0, month := 1, day := 1, hour := 0, minute := 0, second := 0, offNeg := false, offH := 0, offM := 0 }
 
-/-- range check the libraries apply to scanned fields (calendar validity of the day is the libraries') -/
-def fieldsInRange (f : Fields) : Bool :=
-  1 ≤ f.month && f.month ≤ 12 && 1 ≤ f.day && f.day ≤ 31 && f.hour < 24 && f.minute < 60 && f.second < 60
-    && f.offH < 24 && f.offM < 60
+/-- proleptic Gregorian leap year (all three libraries use the proleptic Gregorian calendar) -/
+def isLeap (y : Nat) : Bool := y % 4 = 0 && (y % 100 != 0 || y % 400 = 0)
+
+/-- days of month `m` (1–12) in year `y` -/
+def daysInMonth (y m : Nat) : Nat :=
+  if m = 2 then (if isLeap y then 29 else 28)
+  else if m = 4 || m = 6 || m = 9 || m = 11 then 30 else 31
+
+/-- the check the libraries apply to scanned fields before they build a value: ranges and the
+calendar validity of the day (30 February, 29 February of a common year … are rejected) -/
+def fieldsInRangeH (maxOffH : Nat) (f : Fields) : Bool :=
+  1 ≤ f.month && f.month ≤ 12 && 1 ≤ f.day && f.day ≤ daysInMonth f.year f.month
+    && f.hour < 24 && f.minute < 60 && f.second < 60 && f.offH < maxOffH && f.offM < 60
+
+/-- chrono: `FixedOffset` is strictly within ±24:00 -/
+def fieldsInRange (f : Fields) : Bool := fieldsInRangeH 24 f
+/-- jiff `Offset` and time `UtcOffset` reach ±25:59:59 (outside the property's ±23:59 both behave alike) -/
+def fieldsInRangeWide (f : Fields) : Bool := fieldsInRangeH 26 f
+
+/-! ### instants (civil/epoch arithmetic is the libraries'; executable here for protocol replies and for
+the reading of `with_timezone`, nothing is proved about it) -/
+
+/-- days from 1970-01-01 of a proleptic Gregorian date (Hinnant's `days_from_civil`) -/
+def daysFromCivil (y m d : Nat) : Int :=
+  let y' : Int := if m ≤ 2 then (y : Int) - 1 else y
+  let era : Int := (if y' ≥ 0 then y' else y' - 399) / 400
+  let yoe : Int := y' - era * 400
+  let mp : Int := ((m : Int) + 9) % 12
+  let doy : Int := (153 * mp + 2) / 5 + (d : Int) - 1
+  let doe : Int := yoe * 365 + yoe / 4 - yoe / 100 + doy
+  era * 146097 + doe - 719468
+
+def offsetSeconds (f : Fields) : Int :=
+  let v : Int := (f.offH * 3600 + f.offM * 60 : Nat)
+  if f.offNeg then -v else v
+
+def epochOf (f : Fields) : Int :=
+  daysFromCivil f.year f.month f.day * 86400 + (f.hour * 3600 + f.minute * 60 + f.second : Nat) - offsetSeconds f
+
+/-- the civil fields of instant `e` at UTC offset `off` seconds (Hinnant's `civil_from_days`);
+years before 0 are outside the model (result clamped at 0) -/
+def fieldsOfEpoch (e : Int) (off : Int) : Fields :=
+  let loc := e + off
+  let days := Int.fdiv loc 86400
+  let sod := (Int.fmod loc 86400).toNat
+  let z := days + 719468
+  let era : Int := Int.fdiv z 146097
+  let doe : Nat := (z - era * 146097).toNat
+  let yoe : Nat := (doe - doe / 1460 + doe / 36524 - doe / 146096) / 365
+  let doy : Nat := doe - (365 * yoe + yoe / 4 - yoe / 100)
+  let mp : Nat := (5 * doy + 2) / 153
+  let d : Nat := doy - (153 * mp + 2) / 5 + 1
+  let m : Nat := if mp < 10 then mp + 3 else mp - 9
+  let y : Int := (yoe : Int) + era * 400 + (if m ≤ 2 then 1 else 0)
+  let a := off.natAbs
+  { year := y.toNat, month := m, day := d, hour := sod / 3600, minute := sod / 60 % 60, second := sod % 60,
+    offNeg := decide (off < 0), offH := a / 3600, offM := a / 60 % 60 }
 
 /-- the date-time libraries as a parameter -/
 structure DateLib where
@@ -154,13 +207,20 @@ structure DateLib where
   strptime : Bool → Bytes → Bytes → Option Fields
   /-- `time` parsing -/
   timeParse : Bytes → Bytes → Option Fields
+  /-- chrono `DateTime::with_timezone`: the same instant expressed at another UTC offset (seconds) -/
+  toOffset : Int → Fields → Fields
 
 /-- the libraries read as field-wise zero-padded printing / scanning -/
 def specLib : DateLib where
   strftime fmt f := renderToks f (tokStrftime fmt)
   timeFormat fmt f := renderToks f (tokTimeFd fmt none)
-  strptime zOk fmt s := (parseToks zOk (tokStrftime fmt) zeroFields s).bind fun f => if fieldsInRange f then some f else none
-  timeParse fmt s := (parseToks false (tokTimeFd fmt none) zeroFields s).bind fun f => if fieldsInRange f then some f else none
+  strptime zOk fmt s := (parseToks zOk (tokStrftime fmt) zeroFields s).bind fun f =>
+    -- chrono and jiff scan a leap second `60` and hold it as second 59 (chrono: plus a second of nanoseconds,
+    -- which `timestamp()` does not show); outside the property — no producer prints 60
+    let f := if f.second = 60 then { f with second := 59 } else f
+    if (if zOk then fieldsInRange f else fieldsInRangeWide f) then some f else none
+  timeParse fmt s := (parseToks false (tokTimeFd fmt none) zeroFields s).bind fun f => if fieldsInRangeWide f then some f else none
+  toOffset off f := fieldsOfEpoch (epochOf f) off
 
 /-! ### lopdf's own code -/
 
@@ -206,8 +266,14 @@ def firstAlt (lib : DateLib) (zOk : Bool) (s : Bytes) : List (Nat × Bytes) → 
     | some f => some (applyKind kind f)
     | none => firstAlt lib zOk s rest
 
-/-- `TryFrom<DateTime> for chrono::DateTime<Local>` (before the conversion to the local zone) -/
+/-- `TryFrom<DateTime> for chrono::DateTime<Local>` before the conversion to the local zone: the
+`DateTime<FixedOffset>` the alternatives produce -/
 def chronoParse (lib : DateLib) (s : Bytes) : Option Fields := firstAlt lib true s CHRONO_PARSE
+/-- … and the whole conversion: `.map(|date| date.with_timezone(&Local))`. `localOff` is the UTC offset
+(seconds) the `Local` zone has at that instant — the environment's (`TZ`), a parameter here. The parsed
+offset is NOT kept: only the instant is. -/
+def chronoTryFrom (lib : DateLib) (localOff : Int) (s : Bytes) : Option Fields :=
+  (chronoParse lib s).map (lib.toOffset localOff)
 /-- `TryFrom<DateTime> for jiff::Zoned` -/
 def jiffParse (lib : DateLib) (s : Bytes) : Option Fields := firstAlt lib false s JIFF_PARSE
 /-- the same over the `time` backend's own format syntax -/
@@ -221,27 +287,13 @@ def firstAltTime (lib : DateLib) (s : Bytes) : List (Nat × Bytes) → Option Fi
 /-- `TryFrom<DateTime> for time::OffsetDateTime`: the alternatives in source order -/
 def timeParse (lib : DateLib) (s : Bytes) : Option Fields := firstAltTime lib s TIME_PARSE
 
-/-- `From<time::Time> for Object`; `f` are the fields of `OffsetDateTime::now_utc().replace_time(time)`:
-the date is the environment's, hour/minute/second are the argument's -/
-def timeTimeString (lib : DateLib) (f : Fields) : Option Bytes := lib.timeFormat TIME_TIME_FMT f
-
-/-! ### instants (protocol replies only — civil/epoch arithmetic is the libraries', nothing is proved about it) -/
-
-/-- days from 1970-01-01 of a proleptic Gregorian date (Hinnant's `days_from_civil`) -/
-def daysFromCivil (y m d : Nat) : Int :=
-  let y' : Int := if m ≤ 2 then (y : Int) - 1 else y
-  let era : Int := (if y' ≥ 0 then y' else y' - 399) / 400
-  let yoe : Int := y' - era * 400
-  let mp : Int := ((m : Int) + 9) % 12
-  let doy : Int := (153 * mp + 2) / 5 + (d : Int) - 1
-  let doe : Int := yoe * 365 + yoe / 4 - yoe / 100 + doy
-  era * 146097 + doe - 719468
-
-def offsetSeconds (f : Fields) : Int :=
-  let v : Int := (f.offH * 3600 + f.offM * 60 : Nat)
-  if f.offNeg then -v else v
-
-def epochOf (f : Fields) : Int :=
-  daysFromCivil f.year f.month f.day * 86400 + (f.hour * 3600 + f.minute * 60 + f.second : Nat) - offsetSeconds f
+/-- `From<time::Time> for Object`: `OffsetDateTime::now_utc().replace_time(time)` formatted as a `Z`
+date. `today` stands for `now_utc()`: ASSUMED of the clock/library is only that it returns a date-time at
+offset UTC whose calendar date is valid with a year in 0000–9999 (`time` without `large-dates` cannot
+represent others) and that `replace_time` replaces exactly hour / minute / second (and the sub-second
+part, which the format does not print) keeping date and offset. Which date it is, is the environment's. -/
+def timeTimeString (lib : DateLib) (today : Fields) (h mi s : Nat) : Option Bytes :=
+  lib.timeFormat TIME_TIME_FMT
+    { today with hour := h, minute := mi, second := s, offNeg := false, offH := 0, offM := 0 }
 
 end Lopdf
